@@ -1,6 +1,7 @@
 (* C02 — Payload masking equals the RFC 6455 §5.3 XOR for any offset and chunking.
    Only statements; each closed by [exact]. *)
 Require Import Bytes Stream Check Frame Extracted ExtractedOk Cipher BytesProofs StreamProofs CipherProofs.
+Require GoSlices GoMem Translated3 Translated3Ok.
 Open Scope N_scope.
 
 (* the optimised algorithm (byte head, 16-byte unrolled 64-bit word loop, byte
@@ -74,3 +75,35 @@ Example C02_nonvacuous :
   wf_bytesb p = true /\ cipher p key 7 = mask_spec p key 7 /\ nthb (cipher p key 7) 0 = N.lxor 0 239
   /\ fst (cr_drive 100 [3; 5] [3; 5] (mkCR (bytewise p TEOF) key 0) []) = mask_spec p key 0.
 Proof. vm_compute. repeat split; reflexivity. Qed.
+
+(* ---- tie C3: Cipher TRANSLATED from the source text of cipher.go on this run (gen/Translated3.v, memory
+   model lib/GoMem.v).  For every heap, every valid payload slice into it (any array, offset, len <= cap),
+   every byte content p, every 4-byte key and every offset the Go code can handle (cipher_pre: non-negative,
+   offset+i does not overflow int), the translated function returns normally — no index/slice panic, no
+   loop out of fuel — and afterwards the payload's bytes hold [cipher p key off] = the RFC XOR, every other
+   byte of the heap and the write log unchanged (so every alias of the payload sees exactly that). *)
+Theorem C02_source_cipher : forall w s p key off,
+  GoMem.sl_valid w s -> GoMem.sl_bytes w s = Translated3Ok.zb p -> wf_bytes p -> wf_key key ->
+  (GoMem.sl_len s <= Translated3Ok.max_int)%Z -> Translated3Ok.cipher_pre (GoMem.sl_len s) off ->
+  Translated3.g3_Cipher s (Translated3Ok.zb key) off w =
+  GoSlices.Ok (tt, GoMem.mk_world
+        (GoMem.heap_set (GoMem.w_heap w) (GoMem.sl_arr s)
+           (firstn (Z.to_nat (GoMem.sl_off s)) (GoMem.arr_of w (GoMem.sl_arr s))
+            ++ Translated3Ok.zb (cipher p key (Z.to_N off))
+            ++ skipn (Z.to_nat (GoMem.sl_off s + GoMem.sl_len s)) (GoMem.arr_of w (GoMem.sl_arr s))))
+        (GoMem.w_out w))
+  /\ cipher p key (Z.to_N off) = mask_spec p key (Z.to_N off).
+Proof. exact Translated3Ok.g3_Cipher_source. Qed.
+Print Assumptions C02_source_cipher.
+
+(* a 41-byte payload at offset 5 of a 64-byte array (cap 59), second array untouched, offset 7 *)
+Example C02_source_nonvacuous :
+  let p := map N.of_nat (seq 0 41) in
+  let key := [222; 173; 190; 239] in
+  let arr := (repeat 9 5 ++ Translated3Ok.zb p ++ repeat 9 18)%Z in
+  let w := GoMem.mk_world [[1; 2; 3]%Z; arr] [] in
+  let s := GoMem.mk_slice 1 5 41 59 in
+  GoMem.sl_bytes w s = Translated3Ok.zb p
+  /\ Translated3.g3_Cipher s (Translated3Ok.zb key) 7 w =
+     GoSlices.Ok (tt, GoMem.mk_world [[1; 2; 3]%Z; (repeat 9 5 ++ Translated3Ok.zb (mask_spec p key 7) ++ repeat 9 18)%Z] []).
+Proof. vm_compute. split; reflexivity. Qed.
